@@ -99,14 +99,23 @@ Definition deploy_elem : bytes := s2l "deploy".
 Lemma deploy_elem_safe : safe_elem deploy_elem.
 Proof. unfold safe_elem, no_byte. repeat split; try reflexivity. discriminate. Qed.
 
+Definition status_elem : bytes := s2l "status".
+Lemma status_elem_safe : safe_elem status_elem.
+Proof. unfold safe_elem, no_byte. repeat split; try reflexivity. discriminate. Qed.
+
+(* the lemmas hold for any root "/" ++ r with r an ordinary element ("deploy", "status") *)
+Lemma join_path_root : forall r es, safe_elem r -> Forall safe_or_empty es ->
+  join_path ((slash :: r) :: es) = slash :: join [slash] (r :: filter GoStrLemmas.nonempty es).
+Proof.
+  intros r es Hr F.
+  assert (E : join_path ((slash :: r) :: es) = clean (slash :: join [slash] (r :: es))).
+  { destruct es as [|e es']; reflexivity. }
+  rewrite E, clean_rooted; [|constructor; [right; exact Hr | exact F]].
+  destruct r as [|c r']; [destruct Hr; congruence | reflexivity].
+Qed.
 Lemma join_path_deploy : forall es, Forall safe_or_empty es ->
   join_path (deploy_prefix :: es) = slash :: join [slash] (deploy_elem :: filter GoStrLemmas.nonempty es).
-Proof.
-  intros es F.
-  assert (E : join_path (deploy_prefix :: es) = clean (slash :: join [slash] (deploy_elem :: es))).
-  { destruct es as [|e es']; reflexivity. }
-  rewrite E, clean_rooted; [reflexivity|]. constructor; [right; apply deploy_elem_safe | exact F].
-Qed.
+Proof. intros es F. exact (join_path_root deploy_elem es deploy_elem_safe F). Qed.
 
 (* a workload record as the stores see it *)
 Record names := mkNames { nm_app : bytes; nm_entry : bytes; nm_ident : bytes; nm_node : bytes; nm_id : bytes }.
@@ -119,22 +128,25 @@ Definition good (x : names) : Prop :=
   valid_app (nm_app x) = true /\ valid_entry (nm_entry x) = true /\ valid_node (nm_node x) = true /\
   safe_elem (nm_id x) /\ no_byte underscore (nm_ident x).
 
-Definition key_of (x : names) : bytes :=
-  slash :: join [slash] [deploy_elem; nm_app x; nm_entry x; nm_node x; nm_id x].
+Definition gkey (r : bytes) (x : names) : bytes :=
+  slash :: join [slash] [r; nm_app x; nm_entry x; nm_node x; nm_id x].
+Definition key_of (x : names) : bytes := gkey deploy_elem x.
 
 Lemma safe_nonempty : forall e, safe_elem e -> GoStrLemmas.nonempty e = true.
 Proof. intros [|c e] [H _]; [congruence | reflexivity]. Qed.
 
-Lemma deploy_key_good : forall x, good x -> deploy_key (wl_of_names x) = Some (key_of x).
+Lemma obj_key_good : forall r x, safe_elem r -> good x -> obj_key (slash :: r) (wl_of_names x) = Some (gkey r x).
 Proof.
-  intros x [Ha [He [Hn [Hid Hi]]]]. unfold deploy_key, wl_of_names. cbn [w_name w_node w_id].
+  intros r x Hr [Ha [He [Hn [Hid Hi]]]]. unfold obj_key, wl_of_names. cbn [w_name w_node w_id].
   pose proof (valid_app_safe _ Ha) as Sa. destruct (valid_entry_safe _ He) as [Se Ue].
   pose proof (valid_node_safe _ Hn) as Sn.
   rewrite name_roundtrip; [|apply safe_no_lead_slash; exact Sa | exact Ue | exact Hi].
-  rewrite join_path_deploy.
+  rewrite (join_path_root r _ Hr).
   - cbn [filter]. rewrite !safe_nonempty by assumption. reflexivity.
   - fa; right; assumption.
 Qed.
+Lemma deploy_key_good : forall x, good x -> deploy_key (wl_of_names x) = Some (key_of x).
+Proof. intros x G. exact (obj_key_good deploy_elem x deploy_elem_safe G). Qed.
 
 (* effective filter of ListWorkloads: names after the first empty one are ignored *)
 Definition eff (app entry node : bytes) : list bytes :=
@@ -148,22 +160,26 @@ Definition eff (app entry node : bytes) : list bytes :=
 
 Definition ok_or_empty (e : bytes) : Prop := e = [] \/ safe_elem e.
 
+Lemma filter_key_eff : forall r app entry node, safe_elem r ->
+  ok_or_empty app -> ok_or_empty entry -> ok_or_empty node ->
+  filter_key (slash :: r) app entry node = slash :: join [slash] (r :: eff app entry node) ++ [slash].
+Proof.
+  intros r app entry node Hr Ha He Hn. unfold filter_key.
+  assert (SE : forall e, ok_or_empty e -> safe_or_empty e) by (intros e [->|H]; [left; reflexivity | right; exact H]).
+  destruct app as [|a app'].
+  - rewrite (join_path_root r _ Hr) by (fa; left; reflexivity). reflexivity.
+  - destruct entry as [|e entry'].
+    + rewrite (join_path_root r _ Hr) by (fa; [apply SE; exact Ha | left; reflexivity | left; reflexivity]).
+      reflexivity.
+    + destruct node as [|n node'].
+      * rewrite (join_path_root r _ Hr) by (fa; [apply SE; exact Ha | apply SE; exact He | left; reflexivity]).
+        reflexivity.
+      * rewrite (join_path_root r _ Hr) by (fa; apply SE; assumption). reflexivity.
+Qed.
 Lemma list_key_eff : forall app entry node,
   ok_or_empty app -> ok_or_empty entry -> ok_or_empty node ->
   list_key app entry node = slash :: join [slash] (deploy_elem :: eff app entry node) ++ [slash].
-Proof.
-  intros app entry node Ha He Hn. unfold list_key.
-  assert (SE : forall e, ok_or_empty e -> safe_or_empty e) by (intros e [->|H]; [left; reflexivity | right; exact H]).
-  destruct app as [|a app'].
-  - rewrite join_path_deploy by (fa; left; reflexivity). reflexivity.
-  - destruct entry as [|e entry'].
-    + rewrite join_path_deploy by (fa; [apply SE; exact Ha | left; reflexivity | left; reflexivity]).
-      reflexivity.
-    + destruct node as [|n node'].
-      * rewrite join_path_deploy by (fa; [apply SE; exact Ha | apply SE; exact He | left; reflexivity]).
-        reflexivity.
-      * rewrite join_path_deploy by (fa; apply SE; assumption). reflexivity.
-Qed.
+Proof. intros. exact (filter_key_eff deploy_elem app entry node deploy_elem_safe H H0 H1). Qed.
 
 Lemma safe_no_slash : forall e, safe_elem e -> no_byte slash e.
 Proof. intros e [_ [H _]]. exact H. Qed.
@@ -182,20 +198,20 @@ Definition under_names (app entry node : bytes) (x : names) : Prop :=
   exists r, [nm_app x; nm_entry x; nm_node x] = eff app entry node ++ r.
 
 (* the key-prefix test decides exactly that *)
-Lemma prefix_iff_names : forall app entry node x,
+Lemma gprefix_iff_names : forall r app entry node x, safe_elem r ->
   ok_or_empty app -> ok_or_empty entry -> ok_or_empty node -> good x ->
-  (has_prefix (list_key app entry node) (key_of x) = true <-> under_names app entry node x).
+  (has_prefix (filter_key (slash :: r) app entry node) (gkey r x) = true <-> under_names app entry node x).
 Proof.
-  intros app entry node x Ha He Hn G.
+  intros r app entry node x Hr Ha He Hn G.
   destruct G as [Va [Ve [Vn [Sid _]]]].
   pose proof (valid_app_safe _ Va) as Sa. destruct (valid_entry_safe _ Ve) as [Se _].
   pose proof (valid_node_safe _ Vn) as Sn.
-  rewrite list_key_eff by assumption. unfold key_of. cbn [has_prefix List.app]. rewrite Ascii.eqb_refl. cbn [andb].
+  rewrite filter_key_eff by assumption. unfold gkey. cbn [has_prefix List.app]. rewrite Ascii.eqb_refl. cbn [andb].
   rewrite prefix_components.
-  - change (deploy_elem :: eff app entry node) with ([deploy_elem] ++ eff app entry node).
+  - change (r :: eff app entry node) with ([r] ++ eff app entry node).
     unfold under_names. split.
-    + intros [r [Nr E]]. cbn [List.app] in E. inversion E as [E'].
-      (* eff has at most three elements and the key has four after "deploy": r keeps the id *)
+    + intros [rr [Nr E]]. cbn [List.app] in E. inversion E as [E'].
+      (* eff has at most three elements and the key has four after the root: rr keeps the id *)
       destruct (eff app entry node) as [|e1 [|e2 [|e3 [|e4 l]]]] eqn:Ee; cbn [List.app] in E'.
       * exists [nm_app x; nm_entry x; nm_node x]. reflexivity.
       * inversion E'; subst. exists [nm_entry x; nm_node x]. reflexivity.
@@ -203,13 +219,17 @@ Proof.
       * inversion E'; subst. exists []. reflexivity.
       * exfalso. unfold eff in Ee. destruct app; [discriminate|]. destruct entry; [discriminate|].
         destruct node; discriminate.
-    + intros [r E]. exists (r ++ [nm_id x]). split; [destruct r; discriminate|].
+    + intros [rr E]. exists (rr ++ [nm_id x]). split; [destruct rr; discriminate|].
       cbn [List.app]. f_equal. rewrite app_assoc, <- E. reflexivity.
   - discriminate.
   - discriminate.
-  - constructor; [apply safe_no_slash, deploy_elem_safe | apply eff_no_slash; assumption].
-  - fa; apply safe_no_slash; try assumption. apply deploy_elem_safe.
+  - constructor; [apply safe_no_slash, Hr | apply eff_no_slash; assumption].
+  - fa; apply safe_no_slash; assumption.
 Qed.
+Lemma prefix_iff_names : forall app entry node x,
+  ok_or_empty app -> ok_or_empty entry -> ok_or_empty node -> good x ->
+  (has_prefix (list_key app entry node) (key_of x) = true <-> under_names app entry node x).
+Proof. intros. exact (gprefix_iff_names deploy_elem app entry node x deploy_elem_safe H H0 H1 H2). Qed.
 
 (* ================================================================== *)
 (* the key space built by AddWorkload                                  *)
@@ -218,7 +238,7 @@ Definition entry_of (x : names) : bytes * wl := (key_of x, wl_of_names x).
 
 Lemma key_of_id : forall x y, good x -> good y -> key_of x = key_of y -> nm_id x = nm_id y.
 Proof.
-  intros x y Gx Gy E. unfold key_of in E. apply (f_equal (@tl ascii)) in E. cbn [tl] in E. rename E into E'.
+  intros x y Gx Gy E. unfold key_of, gkey in E. apply (f_equal (@tl ascii)) in E. cbn [tl] in E. rename E into E'.
   destruct Gx as [Va [Ve [Vn [Sid _]]]]. destruct Gy as [Va' [Ve' [Vn' [Sid' _]]]].
   apply join_inj in E'; try discriminate.
   - inversion E'. reflexivity.
@@ -316,7 +336,7 @@ Qed.
 (* GetDeployStatus on etcd: the nodes of exactly the workloads of (app, entry) *)
 Lemma key_node_key_of : forall x, good x -> key_node (key_of x) = nm_node x.
 Proof.
-  intros x [Va [Ve [Vn [Sid _]]]]. unfold key_node, key_of.
+  intros x [Va [Ve [Vn [Sid _]]]]. unfold key_node, key_of, gkey.
   pose proof (valid_app_safe _ Va) as Sa. destruct (valid_entry_safe _ Ve) as [Se _].
   pose proof (valid_node_safe _ Vn) as Sn.
   change (split_on slash (slash :: join [slash] [deploy_elem; nm_app x; nm_entry x; nm_node x; nm_id x]))
@@ -484,6 +504,26 @@ Proof.
   split; [|split; [|vm_compute; repeat split; reflexivity]].
   - fa; unfold good; simpl; repeat split; try reflexivity; try discriminate.
   - simpl. repeat constructor; simpl; intuition discriminate.
+Qed.
+
+(* WorkloadStatusStream on etcd: exactly the workloads created under the (non-ignored) names *)
+Lemma stream_etcd : forall xs app entry node (sel : names -> bool),
+  Forall good xs -> ok_or_empty app -> ok_or_empty entry -> ok_or_empty node ->
+  (forall x, sel x = true <-> under_names app entry node x) ->
+  stream_ids (map wl_of_names xs) app entry node = map nm_id (filter sel xs).
+Proof.
+  intros xs app entry node sel F Ha He Hn Sel. unfold stream_ids. cbv zeta.
+  induction xs as [|x xs IH]; [reflexivity|]. inversion F as [|? ? Gx Fx]; subst.
+  cbn [map filter].
+  change status_prefix with (slash :: status_elem).
+  rewrite (obj_key_good status_elem x status_elem_safe Gx).
+  pose proof (gprefix_iff_names status_elem app entry node x status_elem_safe Ha He Hn Gx) as P.
+  destruct (has_prefix (filter_key (slash :: status_elem) app entry node) (gkey status_elem x)) eqn:E1;
+    destruct (sel x) eqn:E2; cbn [map wl_of_names w_id].
+  - f_equal. apply IH. exact Fx.
+  - assert (sel x = true) by (apply Sel, P; reflexivity). congruence.
+  - assert (T : false = true) by (apply P, Sel, E2). discriminate.
+  - apply IH. exact Fx.
 Qed.
 
 (* ================================================================== *)
